@@ -69,8 +69,24 @@ def dec_windows(l):
     return out
 
 
+_ZONES = [datetime.timezone.utc, None, datetime.timezone(datetime.timedelta(hours=5, minutes=30)),
+          datetime.timezone(datetime.timedelta(hours=-8)), datetime.timezone.utc, None,
+          datetime.timezone(datetime.timedelta(hours=13, minutes=45))]
+_zone_ctr = [0]
+
+
 def us_to_dt(us):
-    return None if us is None else EPOCH + datetime.timedelta(microseconds=us)
+    """the instant `us` microseconds after the epoch as the time-window argument of lsdrf / the event
+    handlers / the mirror: the same instant is handed over in rotating forms -- aware UTC, naive (taken
+    as UTC by the documented convention) and aware in zones with a non-zero offset"""
+    if us is None:
+        return None
+    dt = EPOCH + datetime.timedelta(microseconds=us)
+    _zone_ctr[0] += 1
+    z = _ZONES[_zone_ctr[0] % len(_ZONES)]
+    if z is None:
+        return dt.replace(tzinfo=None)
+    return dt.astimezone(z)
 
 
 ALL_FLAGS = [(a, b, c, d) for a in (True, False) for b in (True, False)
